@@ -12,7 +12,10 @@
 (*   kind    "grid" | "random";  nest: "plain" | "pipe" | "mux"              *)
 (*   n       series length; cv = expanding window, fh = [1], one fold per    *)
 (*           table entry, last fold ending with the series                   *)
-(* Scores are reported as folds * mean score (an integer).                   *)
+(* Scores are reported as folds * mean score (an integer).  The all-zero table  *)
+(* stands for a candidate whose score is UNDEFINED in every fold (the stub      *)
+(* forecasts NaN): its mean score is undefined (reported as Undef) and it is    *)
+(* never the best one as long as another candidate is defined.                  *)
 (***************************************************************************)
 EXTENDS Integers, Sequences, FiniteSets, TLC
 
@@ -20,9 +23,12 @@ RECURSIVE SumSeq(_)
 SumSeq(s) == IF Len(s) = 0 THEN 0 ELSE Head(s) + SumSeq(Tail(s))
 NFolds(c) == Len(c.tables[1])
 \* folds * mean CV score of candidate i, with the sign the metric reports
-Score(c, i) == IF c.gib THEN -SumSeq(c.tables[i]) ELSE SumSeq(c.tables[i])
+Undef == -999999
+Defined(c, i) == \E f \in DOMAIN c.tables[i] : c.tables[i][f] # 0
+Score(c, i) == IF ~Defined(c, i) THEN Undef ELSE IF c.gib THEN -SumSeq(c.tables[i]) ELSE SumSeq(c.tables[i])
 Better(c, a, b) == IF c.gib THEN a > b ELSE a < b            \* direction declared by the metric
-BestSet(c) == { i \in DOMAIN c.tables : \A j \in DOMAIN c.tables : ~Better(c, Score(c, j), Score(c, i)) }
+BestSet(c) == { i \in DOMAIN c.tables : Defined(c, i) /\ \A j \in DOMAIN c.tables :
+                                            Defined(c, j) => ~Better(c, Score(c, j), Score(c, i)) }
 \* every candidate is evaluated on the same temporal splits: expanding windows, fold f trains on 0..(n-F+f-2)
 Window(c, f) == <<0, c.n - NFolds(c) + f - 2>>
 Windows(c) == [f \in 1..NFolds(c) |-> Window(c, f)]
